@@ -229,6 +229,30 @@ func init() {
 		}
 		return mkInt(64, uint64(e.lockWatch.accesses))
 	}
+	// vxInPool(b): the bytes of b live in a buffer that is currently inside a sync.Pool (was Put and not handed out again)
+	vxAPI["vxInPool"] = func(e *Exec, fn *ssa.Function, a []Value) Value {
+		sl, ok := a[0].(Slice)
+		if !ok || sl.A.Obj == nil {
+			return Bool{C: false}
+		}
+		for _, items := range e.pools {
+			for _, it := range items {
+				iv, ok := it.(Iface)
+				if !ok {
+					continue
+				}
+				if p, ok := iv.V.(Ptr); ok && p.Obj != nil {
+					if p.Obj == sl.A.Obj {
+						return Bool{C: true}
+					}
+					if inner, ok := e.load(p).(Slice); ok && inner.A.Obj == sl.A.Obj {
+						return Bool{C: true}
+					}
+				}
+			}
+		}
+		return Bool{C: false}
+	}
 	vxAPI["vxLockHeld"] = func(e *Exec, fn *ssa.Function, a []Value) Value {
 		return Bool{C: e.locks[e.lockKeyOf(a[0].(Iface).V)] != 0}
 	}
